@@ -2,7 +2,7 @@
    oracle (fdiv, fmul, fround) and every matrix-inverse oracle: they are universally quantified. *)
 From Coq Require Import ZArith List Bool String.
 From PV Require Import Base.Tok Base.TokArith Base.NpSearch C04.Model C04.Proofs C04.Model2 C04.Spec C04.Proofs2 C04.Params
-  C04.ParamsProofs C04.Link C04.Proofs3.
+  C04.ParamsProofs C04.Link C04.Proofs3 C04.Proofs4.
 From PV Require C01.Model C02.Model C02.Spec.
 Import ListNotations.
 Open Scope string_scope.
@@ -200,6 +200,13 @@ Theorem C04_loadx_load : forall fdiv fmul fround inv fs rate ncd mx,
 Proof. exact loadx_inv. Qed.
 Print Assumptions C04_loadx_load.
 
+(* "all-NaN templates zeroed in memory" (the function Load_spec's template rule is phrased with), declaratively:
+   template k of the loaded waveforms is all zeros when template k of the file is entirely NaN, and is template k
+   of the file value for value -- NaN and inf entries included, the file being memory-mapped -- otherwise *)
+Theorem C04_nan_templates : forall x v, arr_wf x = true -> zero_nan_templates x = Ok v -> NanZeroed x v.
+Proof. exact zero_nan_spec. Qed.
+Print Assumptions C04_nan_templates.
+
 (* ---- error exits ---- *)
 (* the missing-file exit (IOError in phylib) is taken only when a MANDATORY role -- spike times, spike templates,
    channel map, channel positions -- has no file under any name of its priority list: no absent optional file
@@ -296,4 +303,10 @@ Example C04_ex_missing :
   loadx ex_div ex_mul ex_round (fun a => a) (filter (fun kv => negb (String.eqb (fst kv) "channels.rawInd.npy")) ex_files)
         (TNum 1 1) (Some 2) = XErr EMissing /\
   src P_cmap (filter (fun kv => negb (String.eqb (fst kv) "channels.rawInd.npy")) ex_files) = None.
+Proof. vm_compute. split; reflexivity. Qed.
+(* two templates of 2 x 2 values: the first has one NaN and one inf (kept), the second is all NaN (zeroed) *)
+Example C04_ex_nan_templates :
+  let x := mkarr DF32 [2; 2; 2] [TNum 1 0; TNaN; TPInf; TNum 1 2; TNaN; TNaN; TNaN; TNaN] in
+  arr_wf x = true /\
+  zero_nan_templates x = Ok (mkarr DF32 [2; 2; 2] [TNum 1 0; TNaN; TPInf; TNum 1 2; TNum 0 0; TNum 0 0; TNum 0 0; TNum 0 0]).
 Proof. vm_compute. split; reflexivity. Qed.
